@@ -2313,7 +2313,13 @@ func RecoverMNameWALData() {
 		}
 
 		if !isWalFileEmpty {
-			err := ms.FlushMetricNames()
+			// the segment may not have flushed a block before the crash: its
+			// directory, where the names go, does not exist yet in that case
+			err := os.MkdirAll(ms.metricsKeyBase, 0764)
+			if err != nil {
+				log.Warnf("RecoverMNameWALData :Failed to create the segment directory %s: %v", ms.metricsKeyBase, err)
+			}
+			err = ms.FlushMetricNames()
 			if err != nil {
 				log.Warnf("RecoverMNameWALData :Failed to flush Metrics Name for shardID=%d, segID=%d,: %v",
 					fileData.mId, fileData.segID, err)
